@@ -119,6 +119,33 @@ let handle0 fields impl : string option * string list =
       (if iacc = 1 && outcome <> "no-permit" && imid <> "-" && int_of_string_opt imid <> Some (limit - 1)
        then [Printf.sprintf "inbound-accept-without-slot accepted but %s of %d slots still obtainable during the transfer" imid limit] else []) in
     (Some m, mons)
+  | ["stall"; limit; held0; _ver] ->
+    let limit = int_of_string limit and held0 = int_of_string held0 in
+    (* the model plays the same scenario on the phase lists of the code as it is (release after the read) *)
+    let m = match stall_scenario false false (n_ limit) (n_ held0) with
+      | Ok ((during, second), after) ->
+        Printf.sprintf "ok first=1 during=%d second=%d delivered=1 after=%d restream=0" (int_n during) (if second then 1 else 0) (int_n after)
+      | _ -> "panic" in
+    let ifirst = ifield impl "first" and iduring = ifield impl "during" and isecond = ifield impl "second"
+    and iafter = ifield impl "after" in
+    (* the observed order of events of the first transfer as a phase list, judged by the proved predicate slot_covers:
+       a slot obtainable during the stall beyond limit-held0-1 means the Release came before the end of the read *)
+    let released_early = ifirst = 1 && iduring > limit - held0 - 1 in
+    let observed = if released_early then [PAcquire; PConnected; PRelease; PReadDone; PRelease]
+      else [PAcquire; PConnected; PReadDone; PRelease; PRelease] in
+    let in_progress_during = ifirst + held0 + isecond in
+    let mons =
+      (if ifirst = 1 && not (slot_covers false false observed) then
+         [Printf.sprintf "inbound-slot-free-during-transfer %d of %d slots obtainable while an accepted transfer (plus %d held) is still being read" iduring limit held0] else []) @
+      (if ifirst = 1 && in_progress_during > limit then
+         [Printf.sprintf "more-inbound-transfers-than-limit %d transfers in progress at once, limit %d" in_progress_during limit] else []) @
+      (if iafter < limit - held0 then [Printf.sprintf "inbound-permit-leak-stall %d of %d slots obtainable after quiescence" iafter (limit - held0)] else []) @
+      (if iafter > limit - held0 then [Printf.sprintf "permit-double-release inbound: %d slots obtainable, expected %d" iafter (limit - held0)] else []) @
+      (let rs = field impl "restream" in
+       if rs <> "0" && rs <> "-" && rs <> "?" then
+         ["inbound-stream-accepted-without-slot a second stream on the connection id of a completed offer was " ^ rs ^ " (no slot held)"] else []) @
+      (if ifirst = 1 && ifield impl "delivered" <> 1 then ["stalled-transfer-not-delivered"] else []) in
+    (Some m, mons)
   | ["instress"; limit; n] ->
     let limit = int_of_string limit and n = int_of_string n in
     let rec go k sem = if k = 0 then sem else match try_acquire (n_ limit) sem with Some c -> go (k - 1) c | None -> sem in
